@@ -1,7 +1,7 @@
 (* P19b stage 3, part 9: the incremental invariant over a build and over a history of builds; the values. *)
 From LLB Require Import Engine.Rules Engine.Spec Engine.SpecInv1 Engine.Impl Engine.ImplProofs Engine.ImplProofsSticky Engine.ImplProofsMono Engine.ImplProofsInv
   Engine.ImplProofsInv2 Engine.ImplProofsInv3 Engine.ImplProofsInv9 Engine.ImplProofsStall Engine.ImplProofsRun
-  Engine.ImplVal1 Engine.ImplVal2 Engine.ImplVal6 Engine.ImplInc1 Engine.ImplInc2 Engine.ImplInc3 Engine.ImplInc4 Engine.ImplInc5 Engine.ImplInc6
+  Engine.ImplVal1 Engine.ImplVal2 Engine.ImplVal4 Engine.ImplVal6 Engine.ImplInc1 Engine.ImplInc2 Engine.ImplInc3 Engine.ImplInc4 Engine.ImplInc5 Engine.ImplInc6
   Engine.ImplInc7 Engine.ImplInc8.
 From Coq Require Import Arith Lia.
 Local Open Scope N_scope.
@@ -13,7 +13,7 @@ Variable rank : key -> nat.
 Variable ord : key -> list rkind.
 Variable syncp : key -> bool.
 Hypothesis Hrank : wf_rank rules rank.
-Hypothesis Hdisc : forall k, r_disc (rules k) = [].
+Hypothesis Hwfd : wf_disc rules.
 Hypothesis Hord : forall k, In RReq (ord k).
 Notation HInv := (HInv rules F).
 
@@ -71,7 +71,7 @@ Proof.
     + intros k. unfold cAt, bAt. rewrite HRes, HE. destruct (Hbnd k) as [H1 H2]. unfold cAt, bAt in *. lia.
     + intros k Hb. exfalso. unfold bAt in Hb. rewrite HRes, HE in Hb. destruct (Hbnd k) as [_ Hle]. unfold bAt in Hle. lia.
     + intros k. unfold bAt. rewrite HRes. apply Hsig.
-    + intros k _ Hb. unfold bAt in Hb. rewrite HRes in Hb. apply (rowok_step rules F s0 st k (HRes k)); [|now apply Hrows].
+    + intros k _ Hb _. unfold bAt in Hb. rewrite HRes in Hb. apply (rowok_step rules F s0 st k (HRes k)); [|now apply Hrows].
       intros d _ _ _. left. unfold stored, cAt. rewrite HRes. split; auto. lia.
     + intros k Hc. exfalso. exact (Hnocur k Hc).
   - constructor.
@@ -89,6 +89,12 @@ Proof.
   apply (BInv_mstep root s' s''); auto. exact (proj1 (Inv_mstep rules env F ord syncp _ _ Hs HI)).
 Qed.
 
+Lemma curk_dec s k : curk s k \/ ~ curk s k.
+Proof.
+  unfold curk. destruct (kind_eqb (kind_of s k) KComplete) eqn:E; [apply kind_eqb_eq in E|apply kind_eqb_neq in E; right; tauto].
+  destruct (N.eq_dec (bAt s k) (is_epoch s)); [left|right]; tauto.
+Qed.
+
 (* the state a successful build ends in *)
 Lemma HInv_done root sf : BInv root None sf -> quiescent sf -> HInv sf /\ curk sf root /\ stored sf root = cvK root.
 Proof.
@@ -102,7 +108,23 @@ Proof.
     + intros k Hk. destruct (b_dn _ _ _ _ _ _ HS k Hk) as (_ & _ & _ & [(rq & H & _)|(rq & H & _)]); [rewrite Q2 in H|rewrite Q3 in H]; destruct H.
     + intros k. split; [apply (b_bnd _ _ _ HC k (Hidle k))|apply (b_le _ _ _ HC k)].
     + apply (b_sig _ _ _ HC).
-    + intros k Hb. apply (b_rows _ _ _ HC k (Hidle k) Hb).
+    + intros k Hb. destruct (curk_dec sf k) as [Hc|Hnc]; [|apply (b_rows _ _ _ HC k (Hidle k) Hb Hnc)].
+      (* a rule completed in this build: all its recorded inputs are complete now, and its value is the clean one *)
+      destruct (b_cstr _ _ _ HC k Hc) as (S1 & S2 & S3). cbn zeta in S1, S2, S3.
+      assert (Hdone : forall d, In d (deps sf k) -> curk sf (d_key d)).
+      { intros d Hd. destruct (S3 d Hd) as [_ [H|(_ & [H|(rq & [H|(k0 & H)] & _)])]]; auto; exfalso.
+        - unfold is_in_progress in H. destruct (Q9 (d_key d)) as (_ & H1 & H2 & _). destruct (kind_of sf (d_key d)); try discriminate; contradiction.
+        - rewrite Q3 in H. destruct H.
+        - destruct (Q9 k0) as (_ & _ & _ & Hp & _). rewrite Hp in H. destruct H. }
+      assert (Hreq : map (stored sf) (r_req (rules k)) = map cvK (r_req (rules k))).
+      { apply map_ext_in. intros y Hy. apply (b_cur _ _ _ _ _ _ HT). apply S1. apply in_or_app. now left. }
+      rewrite Hreq in S1. change (branch_keys (rules k) (map cvK (r_req (rules k)))) with (bkK rules env F rank k) in S1.
+      destruct (cvK_some rules env F rank Hrank k) as (v & Hv).
+      destruct (concl_of_clean rules env F rank Hrank Hwfd sf k v (eq_sym Hv)) as [Hco Ho].
+      { intros y Hy. apply in_app_or in Hy. destruct Hy as [Hy|Hy]; [destruct (S1 y) as [H1 H2]; [apply in_or_app; now left|split; auto; now apply (b_cur _ _ _ _ _ _ HT)]|].
+        apply in_app_or in Hy. destruct Hy as [Hy|Hy]; [destruct (S1 y) as [H1 H2]; [apply in_or_app; now right|split; auto; now apply (b_cur _ _ _ _ _ _ HT)]|].
+        split; [now apply S2|]. apply (b_cur _ _ _ _ _ _ HT). apply (Hdone (mkDep y false false)). now apply S2. }
+      exists v. split; [rewrite (b_cur _ _ _ _ _ _ HT k Hc); exact Hv|]. split; [exact Ho|]. split; [intros d Hd; apply S3, Hd|intros _; exact Hco].
   - assert (Hc : curk sf root).
     { destruct (b_root _ _ _ _ _ _ HT) as [H|[(k & H)|[H|H]]]; auto.
       - rewrite Q3 in H. destruct H.
